@@ -4139,6 +4139,7 @@ impl PrimitiveValue {
     /// ```
     pub fn truncate(&mut self, limit: usize) {
         match self {
+            PrimitiveValue::Str(_) if limit == 0 => *self = PrimitiveValue::Empty,
             PrimitiveValue::Empty | PrimitiveValue::Str(_) => { /* no-op */ }
             PrimitiveValue::Strs(l) => l.truncate(limit),
             PrimitiveValue::Tags(l) => l.truncate(limit),
